@@ -4,6 +4,7 @@ go 1.21
 
 require (
 	github.com/flynn/noise v1.0.0
+	github.com/quic-go/quic-go v0.37.4
 	go.brendoncarroll.net/p2p v0.0.0
 	golang.org/x/crypto v0.9.0
 	google.golang.org/protobuf v1.28.0
@@ -13,7 +14,6 @@ require (
 	github.com/davecgh/go-spew v1.1.1 // indirect
 	github.com/golang/protobuf v1.5.3 // indirect
 	github.com/pmezard/go-difflib v1.0.0 // indirect
-	github.com/quic-go/quic-go v0.37.4 // indirect
 	github.com/stretchr/testify v1.8.4 // indirect
 	go.brendoncarroll.net/exp v0.0.0-20241118183830-280772e567eb // indirect
 	golang.org/x/net v0.10.0 // indirect
